@@ -1,6 +1,13 @@
 # Obligation tables: one entry per solver query family.  See DESIGN.md.
 PROPERTIES = {}
 
+def _flat(xs):
+    out = []
+    for x in xs:
+        if isinstance(x, list): out += x
+        else: out.append(x)
+    return out
+
 PROPERTIES['C14'] = {
   'level_text': 'Bounded model checking of the real collider code: for every sorted Morton array and every finite box set at N<=3..4 leaves the BVH build and traversal report exactly the overlapping leaves. Right level because the defects here are index/tie-break shapes (equal codes, degenerate boxes) that a solver enumerates symbolically and tests only sample.',
   'level_note': 'Bounds: N<=4 leaves (quick: tree N=4, end-to-end N=3). Sequential policy only (parallel scheduling of for_each_n is covered under C13). Larger trees, NaN boxes, Collider::Transform are outside this check. Trusted: clang IR, ir2c translation, cbmc.',
@@ -21,5 +28,119 @@ PROPERTIES['C14'] = {
          unwind={'default': 8}, backends=['minisat','kissat'], timeout=900, tiers=['quick', 'thorough'],
          claim='same with a vec3 query: recorded iff the point projects into the XY extent of the leaf box (closed)',
          bounds='N=3 leaves, all finite doubles', targets=['collider_internal::FindCollision<vec3 query>', 'Box::DoesOverlap(vec3)']),
+  ],
+}
+
+def _c13(name, entry, claim, n=4, thr=2, unwind=None, lens=None, **kw):
+    if lens is not None:
+        out = []
+        for L in lens:
+            o = _c13('%s_len%d' % (name, L), entry, claim + ' [length = %d]' % L, n=n, thr=thr, unwind=unwind, **kw)
+            o['defs']['VF_LEN'] = L; out.append(o)
+        return out
+    d = dict(name=name, harness='c13_parallel.cpp', entry=entry, par=True,
+             defs={'VF_N': n, 'MANIFOLD_VERIF_SEQ_THRESHOLD': thr},
+             unwind=unwind or {'default': n + 1}, backends=['minisat'], timeout=600,
+             claim=claim, bounds='n <= %d elements (symbolic length incl. 0), values in a small range; TBB model: <=3 chunks, all split points / chunk orders / body assignments / join orders; kSeqThreshold hook = %d' % (n, thr),
+             targets=['src/parallel.h'])
+    d.update(kw); return d
+
+PROPERTIES['C13'] = {
+  'level_text': 'Bounded model checking of the real src/parallel.h Par branches against a nondeterministic protocol model of TBB: outputs and returned iterators equal a hand-written sequential oracle for every input of length <= 4 and every schedule the model allows (<=3 chunks). Right level: schedule-dependent defects (scan body protocol, merge pivots, radix buffer parity) need all schedules, which a solver covers and a run samples.',
+  'level_note': 'Bounds: n<=4, <=3 chunks per parallel call, 2 modelled worker slots; kSeqThreshold lowered to 2 through the MANIFOLD_VERIF hook. The TBB model (models/include/tbb/vf_tbb.h) is trusted to over-approximate oneTBB. Lock-free containers: sequential spec only in this check (interference steps listed in evidence when present).',
+  'obligations': _flat([
+    _c13('exscan_abssum', 'h_exscan_abssum', 'exclusive_scan(Par) with the repo-style AbsSum operator == sequential exclusive scan; input untouched'),
+    _c13('exscan_abssum_inplace', 'h_exscan_abssum_inplace', 'exclusive_scan(Par) in place (d_first == first), as CreateHalfedges/CompactProps call it'),
+    _c13('exscan_lastnz', 'h_exscan_lastnz', 'exclusive_scan(Par) with an associative NON-commutative operator (operand order in reverse_join matters)'),
+    _c13('incscan', 'h_incscan', 'inclusive_scan(Par) (lambda form of parallel_scan), distinct and in-place buffers'),
+    _c13('copy_if', 'h_copy_if', 'copy_if(Par): kept elements in order, returned iterator, nothing written past the end'),
+    _c13('remove_if', 'h_remove_if', 'remove_if(Par) == std::remove_if prefix and returned iterator'),
+    _c13('remove', 'h_remove', 'remove(Par) == std::remove', lens=[1, 2, 3, 4]),
+    _c13('unique', 'h_unique', 'unique(Par) (CopyIfScanBody with the i/i+1 offset trick) == std::unique'),
+    _c13('elementwise', 'h_elementwise', 'for_each/transform/copy/fill/sequence(Par): every index exactly once, nothing outside [first,last)'),
+    _c13('gather_scatter', 'h_gather_scatter', 'gather/scatter(Par) through an arbitrary permutation map'),
+    _c13('reduce_plus_max', 'h_reduce', 'reduce(plus), reduce(max), transform_reduce (Par) == sequential fold for every reduction tree', lens=[1, 2, 3, 4]),
+    _c13('count_all', 'h_count_all', 'count_if, all_of (Par) == sequential definition for every reduction tree'),
+    _c13('merge_sort', 'h_merge_sort', 'stable_sort(Par, comp) = mergeSortRec/mergeRec: sorted AND stable (tags of equal keys keep input order) for every parallel_invoke order', lens=[2, 3, 4], unwind={'default': 6}, recursion={'mergeRec|mergeSortRec': 4}),
+    _c13('radix_sort', 'h_radix_sort', 'stable_sort(Par) on uint32 = radix_sort/SortedRange/LSB_radix_sort/mergeRec: sorted permutation for every reduce tree and split timing', n=3, lens=[2, 3], unwind={'default': 5, 'Hist|histogram|prefixSum': 257}, recursion={'mergeRec|mergeSortRec': 4}),
+  ]),
+}
+
+_INGEST_CUTS = ['_ZN8manifold8Manifold4Impl15CreateHalfedges.*']
+_INGEST_REDIR = {'_ZN8manifold8Manifold4Impl10ReserveIDsEj': 'vf_stub_ReserveIDs'}
+PROPERTIES['C09'] = {
+  'level_text': 'Bounded model checking of the real MeshGL ingest ladder on arbitrary input structures: for every MeshGL64/MeshGL whose vectors have length <= the bound and arbitrary contents, the constructor performs no out-of-bounds access, division by zero, signed overflow, out-of-range float->int conversion or throw before handing over to halfedge construction, and early returns are empty with an error status. Right level: malformed-input defects are single unvalidated index/length relations, which the solver finds by construction.',
+  'level_note': 'Bounds: vertProperties<=12, triVerts<=12, other vectors<=3..12 entries, all contents arbitrary. Everything from CreateHalfedges on is cut (the success path ends there); ReserveIDs returns an arbitrary id; std::map via models/rbtree.h (unbalanced BST). Allocation failure is out of scope.',
+  'obligations': [
+    dict(name='ingest64', harness='c09_ingest.cpp', entry='h_ingest64', cuts=_INGEST_CUTS, redirect=_INGEST_REDIR, models=['rbtree.h'],
+         unwind={'default': 13}, backends=['minisat'], timeout=900, object_bits=12,
+         claim='Impl::Impl(MeshGL64) up to the call of CreateHalfedges: memory safe, no div-by-zero / overflow / throw for every field content; error returns are empty',
+         bounds='vertProperties<=12 doubles, triVerts<=12, mergeFrom/To, runIndex, runOriginalID, runFlags<=3, runTransform<=12, faceID<=4, halfedgeTangent<=8, numProp and tolerance arbitrary',
+         targets=['Manifold::Impl::Impl<double,uint64_t>(MeshGLP)', 'MeshGLP::NumVert/NumTri/Backside/HasNormals', 'Manifold::Impl::MakeEmpty', 'Vec<T>', 'std::map insert (modelled tree)']),
+    dict(name='ingest32', harness='c09_ingest.cpp', entry='h_ingest32', cuts=_INGEST_CUTS, redirect=_INGEST_REDIR, models=['rbtree.h'],
+         unwind={'default': 13}, backends=['minisat'], timeout=900, object_bits=12,
+         claim='same for the 32-bit MeshGL instantiation', bounds='as ingest64 with float / uint32_t fields',
+         targets=['Manifold::Impl::Impl<float,uint32_t>(MeshGLP)']),
+  ],
+}
+
+PROPERTIES['C11'] = {
+  'level_text': 'Bounded model checking of the leaf predicates the 2D sweep rests on (comparators keying std::map/sort, fill rules, exact vertex-on-edge test): decided for all doubles / all int64 / a small lattice. This is the level where a solver is decisive; the sweep itself is outside reach.',
+  'level_note': 'Only leaf predicates of boolean2_sweep.cpp and shared.h; the arrangement sweep, winding pass, OutEdgesToPolygons and MergeVerts are NOT covered (DESIGN.md C11 outside). NaN coordinates excluded (AllFinite guards the entry).',
+  'obligations': [
+    dict(name='lexless', harness='c11_pred.cpp', entry='h_lexless', backends=['minisat'], timeout=300, unwind={'default': 2},
+         claim='LexLess is irreflexive, asymmetric, transitive, total on non-NaN points and equals the x-then-y definition', bounds='all finite doubles |x|<=1e100', targets=['boolean2_sweep.cpp LexLess']),
+    dict(name='pairlexless', harness='c11_pred.cpp', entry='h_pairlexless', backends=['minisat'], timeout=300, unwind={'default': 2},
+         claim='PairLexLess (key order of PolySet2) is a strict total order on pairs of non-NaN points', bounds='all finite doubles', targets=['boolean2_sweep.cpp PairLexLess']),
+    dict(name='isinside', harness='c11_pred.cpp', entry='h_isinside', backends=['minisat'], timeout=300, unwind={'default': 2},
+         claim='IsInside: Add <=> w>0, Intersect <=> w>1, EvenOdd <=> w odd, including negative windings', bounds='all int64 w', targets=['boolean2_sweep.cpp IsInside']),
+    dict(name='oninterior', harness='c11_pred.cpp', entry='h_oninterior', backends=['minisat', 'kissat'], timeout=600, unwind={'default': 2}, defs={'VF_R': 4},
+         claim='OnInterior never reports a point that is not exactly on the open segment (integer cross product, strict betweenness) and reports every such point for axis-aligned segments', bounds='integer lattice [-4,4]^2 for v,a,b (double arithmetic of the real Interpolate kernel)', targets=['boolean2_sweep.cpp OnInterior, YAtX', 'shared.h Interpolate']),
+  ],
+}
+
+PROPERTIES['C02'] = {
+  'level_text': 'Bounded model checking of the real symbolic-perturbation kernels: Shadows is a perturbed strict order for all doubles; Kernel02 (with Shadow01, Interpolate) satisfies every internal contract the library asserts in debug builds (Interpolate domain, k==2 before the second Interpolate, vector bounds) plus |s02|<=1 for ALL finite operand coordinates and normals and every vertex numbering. This is the layer where operand-pose-specific branch bugs live.',
+  'level_note': 'Kernel level only: inclusion arithmetic, winding flood fill and face assembly of boolean_result.cpp are outside the claim. Quick tier decides Kernel02 at IEEE half precision (|x|<=1024); thorough at double (|x|<=1e100).',
+  'obligations': [
+    dict(name='shadows', harness='c02_kernels.cpp', entry='h_shadows', backends=['minisat'], timeout=300, unwind={'default': 2},
+         claim='Shadows(p,q,d) xor Shadows(q,p,-d) unless p==q and d==0; withSign', bounds='all finite doubles', targets=['shared.h Shadows, withSign']),
+    dict(name='k02_tt_f16', harness='c02_kernels.cpp', entry='h_k02_tt', real='f16', defs={'VF_BND': 1024}, backends=['kissat', 'minisat'], timeout=900, unwind={'default': 4}, tiers=['quick', 'thorough'],
+         claim='Kernel02<expandP=true,forward=true>: all harvested library assertions + |s02|<=1 + z02 not NaN when s02!=0', bounds='IEEE binary16 arithmetic, |x|<=1024, arbitrary finite normals, all 6 vertex numberings',
+         targets=['boolean3.cpp Kernel02::operator(), Shadow01, LoadFaceEdges', 'shared.h Interpolate, Shadows']),
+    dict(name='k02_ff_f16', harness='c02_kernels.cpp', entry='h_k02_ff', real='f16', defs={'VF_BND': 1024}, backends=['kissat', 'minisat'], timeout=900, unwind={'default': 4}, tiers=['quick', 'thorough'],
+         claim='Kernel02<false,false>: same contracts', bounds='binary16, |x|<=1024', targets=['boolean3.cpp Kernel02<false,false>']),
+  ],
+}
+
+PROPERTIES['C05'] = {
+  'level_text': 'Bounded model checking of the real copy-on-write storage (Vec<T,true>, Halfedges): from every sharing configuration of three handles, one or two arbitrary operations through the library\'s MakeUnique discipline leave every other handle\'s observable contents bit-identical; harvested AssertUnique obligations hold; blocks are freed once (CBMC memory-leak and double-free checks).',
+  'level_note': 'Storage level only. The shared_ptr<const Impl> discipline of manifold.cpp/csg_tree.cpp, CrossSection PathImpl and the MakeUnique call sites inside mesh algorithms are outside this check (DESIGN.md C05). Vectors of <=3 ints, <=2 operations.',
+  'obligations': [
+  ] + [
+    dict(name='sharedvec_cfg%d' % c, harness='c05_vec.cpp', entry='h_sharedvec', defs={'VF_CFG': c, 'VF_N': 2}, backends=['minisat'], timeout=900, unwind={'default': 5}, cbmc=['--memory-leak-check'], object_bits=11,
+         cdefs=['VF_ALLOC_CLASSES=VF_C(4) VF_C(8) VF_C(12) VF_C(512)', 'VF_ALLOC_STRICT'],
+         claim='SharedVec<int>, sharing configuration %d of 5: copy/move/assign/MakeUnique/push_back/resize/clear/pop_back/operator[] on one handle never change another handle; no leak, no double free; every mutator reaches AssertUnique with a unique block' % c,
+         bounds='3 handles, contents <=2 symbolic ints, 1 arbitrary operation (8 kinds) on an arbitrary handle', targets=['src/vec.h Vec<int,true>'])
+    for c in range(5)
+  ] + [
+    dict(name='halfedges', harness='c05_vec.cpp', entry='h_halfedges', backends=['minisat'], timeout=900, unwind={'default': 8}, cbmc=['--memory-leak-check'], object_bits=10,
+         claim='Halfedges wrappers (MakeUnique, MakeInvalid, Set, push_back, resize, clear) on one handle leave a sharing handle unchanged', bounds='<=6 halfedges, 1 operation', targets=['src/shared.h Halfedges']),
+  ],
+}
+
+PROPERTIES['C17'] = {
+  'level_text': 'Bounded model checking of the numeric kernels behind the constructors and transforms: Quality settings -> segment counts for every double/int argument (no undefined float->int conversion, documented multiples of four, monotone in |radius| at the defaults), and exactness of sind/cosd at every multiple of 90 degrees up to 9e7 degrees with remquo modelled by its C17 contract.',
+  'level_note': 'Numeric/index kernels only; point-in-solid semantics of Cube/Sphere/Cylinder/Extrude/Revolve/LevelSet, Warp and volume scaling are outside the claim (DESIGN.md C17). remquo is a contract model (models/libm.h).',
+  'obligations': [
+    dict(name='circular_segments', harness='c17_numeric.cpp', entry='h_circular_segments', models=['libm.h'], backends=['minisat'], timeout=600, unwind={'default': 3},
+         claim='Quality::Set*/GetCircularSegments for every double angle/length/radius and int segment count: no UB, result is the set count or a multiple of 4 >= 4',
+         bounds='all 64-bit doubles (incl. NaN, inf, denormals) and all ints', targets=['manifold.cpp Quality::SetMinCircularAngle/SetMinCircularEdgeLength/SetCircularSegments/GetCircularSegments']),
+    dict(name='circular_segments_default', harness='c17_numeric.cpp', entry='h_circular_segments_default', models=['libm.h'], backends=['minisat'], timeout=600, unwind={'default': 3},
+         claim='with default Quality: 4 <= n <= 36, multiple of 4, even in radius, monotone non-decreasing in |radius|', bounds='all doubles', targets=['Quality::GetCircularSegments']),
+    dict(name='sind_exact', harness='c17_numeric.cpp', entry='h_sind_exact', models=['libm.h'], backends=['minisat', 'kissat'], timeout=900, unwind={'default': 3}, recursion={'sind': 2}, object_bits=12, forbid=['_ZN8manifold4math7RemPio2.*'],
+         claim='sind(90k) and cosd(90k) are exactly 0, +1 or -1 with the right sign', bounds='|k| <= 10^6; remquo by contract; the large-argument reduction RemPio2 is asserted unreachable', targets=['common.h sind, cosd', 'math.h sin, cos (small-argument paths)']),
+    dict(name='sind_nonfinite', harness='c17_numeric.cpp', entry='h_sind_nonfinite', models=['libm.h'], backends=['minisat'], timeout=600, unwind={'default': 3}, recursion={'sind': 2}, object_bits=12, forbid=['_ZN8manifold4math7RemPio2.*'],
+         claim='sind/cosd of NaN or +-inf is NaN', bounds='all non-finite doubles', targets=['common.h sind, cosd']),
   ],
 }
